@@ -14,7 +14,12 @@ property, which needs no evaluator:
                            ``parse("SELECT " + name)`` is a one-target, clause-free SELECT whose expression
                            equals the target's expression                    (anything else);
     * expressions that only GROUP BY, ORDER BY or HAVING introduce appear neither in the description nor
-      in the rows (follows from the two length conditions and the names).
+      in the rows (follows from the two length conditions and the names);
+    * the names of a statement come from ITS text whatever was executed before on the same connection
+      (respelled sequences: the same AST in another spelling right after the first);
+    * "one value per described column": when every target is a bare or aliased column of a table whose rows
+      are known without a query (harness table; #postings through beancount's data model), the k-th values of
+      the rows are the values of the k-th described column (rows compared as multisets of (type, repr)).
 
 Enumerated space
     target lists   every sequence of target kinds {A alias, C bare column, E expression} of length 1..4
@@ -38,6 +43,19 @@ Enumerated space
                    DISTINCT and with 1..2 hidden ORDER BY expressions
     table kinds    named targets (A / C / E over type-agnostic expressions) on every ledger table and on a
                    sub-query
+    sequences      on ONE connection: statement, the same statement (same AST: same menu entries, aliases,
+                   clauses) with every expression / pad / keyword in another spelling, (thorough) the first
+                   spelling again; for every one of the 120 kind sequences one plain and one grouped statement
+                   (quick; number of hidden targets / grouped configuration rotate with the sequence) or every
+                   plain and grouped statement of the first rotation (thorough).  A report on a later step is
+                   re-run as the first statement of a connection without history: when it disappears there the
+                   fingerprint is ``sequence:<locus>`` (dependence on the history of the connection)
+    value          lists of 1..4 different bare / aliased columns of #t and #postings whose names follow EVERY
+    alignment      set partition of the positions (1 + 2 + 5 + 15 = 23 name patterns x 2 naming styles; #postings:
+                   one style in the quick tier): repeated names by common alias or by aliasing to an earlier bare
+                   column, unique names bare or aliased; executed directly (with / without a hidden ORDER BY
+                   expression) and as a FROM sub-query from which every uniquely named column alone, all uniquely
+                   named columns in reverse order and (no repeated name) `*` are selected
     attributes     un-aliased and aliased attribute / subscript targets on the structured columns of #postings
                    (entry.date, position.units.number, entry.meta['memo'] ...), #accounts (open.date, close.date:
                    two targets ending in the same attribute name), #prices, #balances; blanks / newlines /
@@ -50,6 +68,11 @@ Scope / weakest readings
     * the slice may carry surrounding parentheses / blanks / comments or not: any slice inside the target's
       region that parses back to the expression is accepted;
     * names of BALANCES / JOURNAL columns and PIVOT BY results are not specified by the property: not generated;
+    * from a sub-query with repeated column names only the uniquely named columns are read: which of two
+      columns called k the outer `k` means is not decided by the property, and `SELECT *` over such a sub-query
+      loses columns (open finding star-identity:duplicate-names of C08);
+    * value alignment compares multisets of rows (no statement of that group filters, groups or limits; the
+      property does not speak about row order);
     * duplicate names are never combined with positional ORDER BY / GROUP BY (finding 24 of DESIGN.md: the
       positional range is computed from distinct names -- owned by C05 / C03);
     * a statement of the enumeration that is rejected or crashes is reported (fingerprint = exception
@@ -421,12 +444,12 @@ def named_statements(nrot_plain, nrot_grouped, seed=0, thin=False):
     configurations does not depend on it.
 
     Respelled sequences: a statement is followed, on the same connection, by the same statement (same AST) in
-    other spellings of every expression, pad and keyword (RESPELL shifts of the spelling rotation; a shift of 1
-    changes the style of every expression) and then by the first spelling again.  Thorough: every statement of
-    the first rotation; quick: for every kind sequence one plain statement (the number of hidden targets
+    another spelling of every expression, pad and keyword (the spelling rotation shifted by 1, which changes
+    the style of every expression) and, thorough only, by the first spelling again.  Thorough: every statement
+    of the first rotation; quick: for every kind sequence one plain statement (the number of hidden targets
     rotates with the sequence) and one grouped statement (the configuration rotates with the sequence)."""
     seqs = [''.join(s) for n in (1, 2, 3, 4) for s in itertools.product('ACE', repeat=n)]
-    shifts = (1,) if thin else (1, 2, 5)
+    shifts = (1,)
     rot = seed * 13
     for si, kinds in enumerate(seqs):
         for r in range(nrot_plain):
@@ -1012,11 +1035,17 @@ def run(ctx):
         'distinct_nontrivial': len(s['texts']),
         'rule': 'a case is one SELECT statement text executed on the real connection; enumerated: all 120 kind sequences over {alias, bare '
                 'column, expression} of length 1..4 x hidden-target configurations x spelling rotations, duplicates, `*` on every table kind, '
-                'named targets on every table kind; distinct & non-trivial = distinct statement texts (every statement has >= 1 target)',
+                'named targets on every table kind, respelled two/three-statement sequences on one connection, value alignment of bare/aliased '
+                'column lists for every name pattern (set partition) directly and through a sub-query; distinct & non-trivial = distinct statement texts (every statement has >= 1 target)',
         'exhaustive': True,
         'bound': f'target lists of 1..4 targets; 0..3 hidden targets; spelling rotations plain/grouped = {(1, 1) if ctx.quick else (20, 6)}; '
                  f'rotation offset from VERIF_SEED = {ctx.seed}',
         'kind_sequences_visited': len(s['kind_sequences']),
+        'respelled_sequences': {k: n[k] for k in ('sequences', 'sequence_steps_after_the_first', 'sequence_steps_spelled_differently_from_the_previous',
+                                                  'sequence_expression_targets_spelled_differently_from_the_previous')},
+        'value_alignment': {'name_patterns_(source,partition,style)': len(s['value_name_patterns']),
+                            'statements_direct': n['value_statements[direct]'], 'statements_through_subquery': n['value_statements[subquery]'],
+                            'sources': {k: v[1] for k, v in VALUE_SOURCES.items()}},
         'targets_by_kind': {k[8:-1]: v for k, v in sorted(n.items()) if k.startswith('targets[')},
         'statements_by_hidden_count': {k[7:-1]: v for k, v in sorted(n.items()) if k.startswith('hidden[')},
         'statements_by_group': {k[6:-1]: v for k, v in sorted(n.items()) if k.startswith('group[')},
@@ -1041,4 +1070,8 @@ def run(ctx):
         '`*` is compared with the table\'s published wildcard_columns, which must be a sub-sequence of the declared columns',
         'BALANCES / JOURNAL / PIVOT BY column names are not specified by the property and are not generated',
         'duplicate names are not combined with positional references (DESIGN finding 24 belongs to C05/C03)',
+        'from a sub-query with repeated column names only uniquely named columns are read by name; `*` over it is the open C08 finding '
+        'star-identity:duplicate-names and is not generated',
+        'value alignment: rows are compared as multisets with the rows of the harness table / with the postings of beancount\'s own data model',
+        'respelled sequences share the process connection with all other statements of the worker (any earlier statement is history too)',
     ])
